@@ -9,7 +9,8 @@ Families (sub-commands of harness/src/fsolve.rs and ocaml/fsolve_cmd.ml):
                            every returned assignment is judged with exact rationals (vlib/fmodel.py).
   flower_cover    lowerf   the same models lowered through hook H2 (Model::verif_lower): every posted constraint that
                            relates a float variable to another variable must be covered by a propagator that can act on
-                           floats (structural reading of "never silently ignored").  ORACLE-ONLY.
+                           floats (structural reading of "never silently ignored"); the lowering DECISION (IntLin* or
+                           FloatLin* per linear post) is a Coq function (linear_lowering) compared with the lowered model.
   fprop_exact     propf    props-level float propagators (FloatLinEq/Le/Ne, LessThanOrEquals/Eq with float operands):
                            extracted Coq model (coq/Model/FloatProps.v) == implementation, bit for bit.
   fsearch_exact   searchf  props-level float/mixed search (propagation + bisection): extracted model
@@ -172,8 +173,6 @@ def failing(case, impl):
         else:
             if kk != "F" or not (lo - case.step <= v <= hi + case.step):
                 cls = None
-                for r in case.rows:
-                    if fm.row_class(case, r) == "eq_val_outside" and i in r.coeffs: cls = "eq_val_outside"
                 out.append(("x%d = %.12g outside its declared bounds [%.12g, %.12g]" % (i, float(v), float(lo), float(hi)), cls))
     if any(v is None for v in vals):
         return out
@@ -204,7 +203,7 @@ def nontrivial(line, impl):
 
 # structural cover check on the lowering dump
 import re
-FLOAT_OK = {"FloatLinEq", "FloatLinLe", "FloatLinNe", "FloatLinEqReif", "FloatLinLeReif", "FloatLinNeReif", "LessThanOrEquals", "Eq", "Add", "Mul", "Sum", "Div"}
+FLOAT_OK = {"FloatLinEq", "FloatLinLe", "FloatLinNe", "FloatLinEqReif", "FloatLinLeReif", "FloatLinNeReif", "LessThanOrEquals", "LessThan", "Eq", "Add", "Mul", "Sum", "Div"}
 def uncovered(line, impl):
     if not impl.startswith("ok "):
         return []
@@ -232,14 +231,34 @@ def classify_lower(line, impl, cls):
     u = uncovered(line, impl)
     if not u: return cls
     cs = [fm.row_class(case, r) for r in u]
-    return cs[0] if all(c in ("float_cmp_intlin", "float_ne") for c in cs) else None
+    return cs[0] if all(c in ("float_ne",) for c in cs) else None
 def gen_lower(tier, rng):
     return [c for c in gen_random(tier, rng)][: (800 if tier == "quick" else 20000)]
 
+def split_kinds(model_line):
+    from ..core import default_split
+    m, s, cls = default_split(model_line)
+    return m, "-", cls
+def corr_lower(line, impl, mpart):
+    """correspondence of the lowering DECISION: the Coq function linear_lowering (Model/FloatDispatch.v; printed by the driver
+    as `kinds=F:0,1 I:2 ...`, one item per linear post) against the IntLin* / FloatLin* propagators found in the lowered
+    model (hook H2), compared as multisets of (family, variable list)"""
+    if not impl.startswith("ok ") or mpart is None or not mpart.startswith("kinds="):
+        return True
+    from collections import Counter
+    want = Counter(t for t in mpart[6:].split() if t != "-")
+    got = Counter()
+    for p in impl.split(" ; ")[2:]:
+        m = re.match(r"\s*(IntLin|FloatLin)(Eq|Le|Ne) \{", p)
+        if m:
+            vs = sorted(int(x) for x in re.findall(r"VarId\((\d+)\)", p.split("variables:")[1].split("]")[0]))
+            got[("I:" if m.group(1) == "IntLin" else "F:") + ",".join(map(str, vs))] += 1
+    return want == got
 FAMILIES = [
     Family("fsolve_random", "solvef", gen_random, split=split_oracle, nontrivial=nontrivial, prop_judge=judge_solve),
-    Family("flower_cover", "lowerf", gen_lower, split=split_oracle, nontrivial=lambda c, i: i.startswith("ok "), prop_judge=judge_lower),
+    Family("flower_cover", "lowerf", gen_lower, split=split_kinds, nontrivial=lambda c, i: i.startswith("ok "), prop_judge=judge_lower),
 ]
+FAMILIES[1].corr = corr_lower
 FAMILIES[0].classify = classify_solve
 FAMILIES[1].classify = classify_lower
 
